@@ -22,7 +22,7 @@ from ..core.constfold import Stub, FoldRaise, ClassRef
 
 ORDER = ["DFXPReader", "MicroDVDReader", "WebVTTReader", "SAMIReader", "SRTReader", "SCCReader"]
 TOKENS = ["1", "a", "\n", " ", "{1}", "{0}", "-->", "WEBVTT", "<sami", "</tt>", "Scenarist_SCC V1.0",
-          "00:00:01,000", "\t", "2 "]
+          "00:00:01,000", "\t", "2 ", "\ufeff"]
 
 
 class Sniffers:
@@ -77,6 +77,12 @@ def strings(max_tokens, extra=()):
     for d in extra:
         for i in range(1, len(d) + 1):
             s = d[:i]
+            if s not in seen:
+                seen.add(s)
+                yield s
+    # a byte-order mark left in front of a document (and on its own)
+    for d in extra:
+        for s in ("\ufeff" + d, "\ufeff\ufeff" + d[:40]):
             if s not in seen:
                 seen.add(s)
                 yield s
